@@ -21,8 +21,6 @@ use std::panic::AssertUnwindSafe;
 use std::path::{Path, PathBuf};
 
 const TAG: u64 = 0xC18;
-const FINDING_ABS_PREFIX: &str = "C18-abs-prefix-href";
-const FINDING_HREF_SCHEME: &str = "C18-href-scheme-from-name";
 
 // ---------------------------------------------------------------------------------------------
 // generators
@@ -307,6 +305,18 @@ fn oracle_escaped(routine: &str, s: &str, out: &str) -> Option<String> {
                 return Some("json: decoding the literal does not give the name back".into());
             }
         }
+        "filerow" => {
+            if out.contains(['<', '>', '"', '\'']) || !amp_ok(out, HTML_ENTS) {
+                return Some("filerow: raw metacharacter in the href of an index row".into());
+            }
+            let want = format!("./{}.html", s);
+            if ref_unescape_entities(out).as_deref() != Some(want.as_str()) {
+                return Some("filerow: the href does not decode to ./<name>.html".into());
+            }
+            if has_scheme(&want) {
+                return Some("filerow: the row link is an absolute URL".into());
+            }
+        }
         "html" => {
             if out.contains(['<', '>', '"', '\'']) {
                 return Some("html: raw metacharacter in escaped text".into());
@@ -460,8 +470,18 @@ fn esc_observe(name: &str) -> Vec<(&'static str, Vec<Result<String, String>>)> {
             "scheme",
             vec![Ok(if has_scheme(name) { "x31".to_string() } else { "x30".to_string() })],
         ),
+        // filled from the Tera page: the row link `"./"~name~".html"` as written, and the name
+        ("filerow", vec![]),
         ("html", vec![]),
     ]
+}
+
+fn esc_request(routine: &str, name: &str) -> String {
+    if routine == "filerow" {
+        format!("filerow - x{}", hex(name.as_bytes()))
+    } else {
+        format!("{} x{}", routine, hex(name.as_bytes()))
+    }
 }
 
 fn unx(ans: &str) -> Option<String> {
@@ -506,11 +526,11 @@ fn impl_one(routine: &str, s: &str, workdir: &Path) -> Result<String, String> {
         "xmltext" => impl_bytes_text(s),
         "xmlpartial" => Ok(xhex(quick_xml::escape::partial_escape(s).as_bytes())),
         "json" => impl_json(s),
-        "html" => {
+        "html" | "filerow" => {
             let mut set = BTreeSet::new();
             set.insert(s.to_string());
             let rows = impl_tera_rows(&set, &workdir.join("tera1"))?;
-            Ok(xhex(rows[0].2.as_bytes()))
+            Ok(xhex(if routine == "html" { rows[0].2.as_bytes() } else { rows[0].1.as_bytes() }))
         }
         _ => Err("unknown routine".into()),
     }
@@ -518,7 +538,7 @@ fn impl_one(routine: &str, s: &str, workdir: &Path) -> Result<String, String> {
 
 /// shortest substring (by greedy character deletion) on which the oracle still fails
 fn shrink_esc_oracle(routine: &str, name: &str) -> Option<Value> {
-    if routine == "html" || name.len() > 4000 {
+    if routine == "html" || routine == "filerow" || routine == "scheme" || name.len() > 4000 {
         return None;
     }
     let wd = PathBuf::from("/verif/work/C18");
@@ -595,22 +615,22 @@ fn esc_stream(rep: &mut Report, rng: &mut Rng) {
     for c in cases.iter_mut() {
         let r = tera_out.get(&c.name).cloned().unwrap_or(Err("missing".into()));
         let obs = match r {
-            Ok((href, text)) => vec![
-                Ok(xhex(text.as_bytes())),
-                // the href is html(name ~ ".html") = html(name) ++ ".html"
-                href.strip_suffix(".html")
-                    .map(|h| xhex(h.as_bytes()))
-                    .ok_or_else(|| "href does not end in .html".to_string()),
-            ],
-            Err(e) => vec![Err(e)],
+            Ok((href, text)) => (vec![Ok(xhex(href.as_bytes()))], vec![Ok(xhex(text.as_bytes()))]),
+            Err(e) => (vec![Err(e.clone())], vec![Err(e)]),
         };
-        c.obs.last_mut().unwrap().1 = obs;
+        for (routine, o) in c.obs.iter_mut() {
+            if *routine == "filerow" {
+                *o = obs.0.clone();
+            } else if *routine == "html" {
+                *o = obs.1.clone();
+            }
+        }
     }
     // the model
     let mut reqs = vec![];
     for c in &cases {
         for (routine, _) in &c.obs {
-            reqs.push(format!("{} x{}", routine, hex(c.name.as_bytes())));
+            reqs.push(esc_request(routine, &c.name));
         }
     }
     let answers = run_model_named("gm_c18", &reqs, &rep.workdir, "esc");
@@ -643,7 +663,7 @@ fn esc_stream(rep: &mut Report, rng: &mut Rng) {
         let m = &answers[i * per..(i + 1) * per];
         if i == 0 {
             rep.sample(json!({"request": reqs[i * per], "impl": c.obs[0].1[0].clone().unwrap_or_default(), "model": m[0]}));
-            rep.sample(json!({"request": reqs[i * per + 5], "impl": c.obs[5].1[0].clone().unwrap_or_default(), "model": m[5]}));
+            rep.sample(json!({"request": reqs[i * per + 6], "impl": c.obs[6].1[0].clone().unwrap_or_default(), "model": m[6]}));
         }
         esc_judge(rep, c, m);
     }
@@ -1090,20 +1110,7 @@ fn run_writers(c: &RepCase, base: &Path, id: &str) -> Written {
         }
         for (k, f) in c.files.iter().enumerate() {
             let page = html.join(page_name(Path::new(&rel_of(f))));
-            w.docs.push((format!("{}.html.file{}", id, k), "html", page.clone()));
-            if c.prefix.is_some() {
-                // the same page with the `| safe` breadcrumb link escaped: used to decide whether
-                // an oracle failure is exactly the known finding
-                if let Ok(raw) = std::fs::read_to_string(&page) {
-                    let link = file_links(c, f).1;
-                    let bad = format!("<li><a href=\"{}\">", link);
-                    let good = format!("<li><a href=\"{}\">", ref_html_escape(&link));
-                    let repaired = raw.replacen(&bad, &good, 1);
-                    let rp = out.join(format!("repaired{}.html", k));
-                    std::fs::write(&rp, repaired).unwrap();
-                    w.docs.push((format!("{}.html.file{}.repaired", id, k), "html", rp));
-                }
-            }
+            w.docs.push((format!("{}.html.file{}", id, k), "html", page));
         }
     }
     w
@@ -1181,10 +1188,9 @@ fn triples(v: &Value) -> Vec<(String, String, String)> {
 struct Verdict {
     /// unnamed oracle failures
     failures: Vec<String>,
-    /// failures that are exactly the known finding
-    finding_abs_prefix: Vec<String>,
-    /// index rows whose link is an absolute URL because the name starts like a scheme
-    finding_href_scheme: Vec<String>,
+    /// links whose URL scheme is not the one the configuration gives them (a name changed it);
+    /// kept apart so that the configuration-only excluded point can be recognised
+    scheme: Vec<String>,
 }
 
 /// expected `<title>` / `<a>` / `<pre>` elements of one page, in document order
@@ -1223,7 +1229,7 @@ fn expect_dir_page(c: &RepCase, parent: &str) -> Vec<(String, String, String)> {
         .collect();
     for n in names {
         let url = match &c.prefix {
-            None => format!("{}.html", n),
+            None => format!("./{}.html", n),
             Some(p) => format!("{}/{}.html", PathBuf::from(p).join(parent).display(), n),
         };
         v.push(("a".to_string(), url, n));
@@ -1239,7 +1245,7 @@ fn expect_top_page(c: &RepCase) -> Vec<(String, String, String)> {
     let parents: BTreeSet<String> = c.files.iter().map(parent_of).collect();
     for p in parents {
         let url = match &c.prefix {
-            None => format!("{}/index.html", p),
+            None => format!("./{}/index.html", p),
             Some(pre) => format!("{}{}/index.html", pre, p),
         };
         v.push(("a".to_string(), url, p));
@@ -1295,8 +1301,7 @@ fn judge_page(h: &Value, b: &Value, expected: &[(String, String, String)]) -> Ve
 fn judge_case(c: &RepCase, hid: &str, bid: &str, wh: &Written, wb: &Written, dec: &Value) -> Verdict {
     let mut v = Verdict {
         failures: vec![],
-        finding_abs_prefix: vec![],
-        finding_href_scheme: vec![],
+        scheme: vec![],
     };
     for (n, p) in &wh.panics {
         v.failures.push(format!("writer {} panicked: {}", n, p));
@@ -1462,20 +1467,18 @@ fn judge_case(c: &RepCase, hid: &str, bid: &str, wh: &Written, wb: &Written, dec
     let empty = Value::Null;
     let top = judge_page(doc(hid, "html.top"), doc(bid, "html.top"), &expect_top_page(c));
     v.failures.extend(top.into_iter().map(|m| format!("html top index: {}", m)));
-    // links built from names must stay relative (no prefix option: every link of an index page
-    // is meant to point into the report)
+    // links built from names: without the prefix option every link is relative; with it, the
+    // scheme of every link is the prefix's own
+    let want_scheme = c.prefix.as_deref().map(has_scheme).unwrap_or(false);
     let scheme_rows = |page: &Value| -> Vec<String> {
-        if c.prefix.is_some() {
-            return vec![];
-        }
         triples(&page["elems"])
             .into_iter()
-            .filter(|t| t.0 == "a" && has_scheme(&t.1))
+            .filter(|t| t.0 == "a" && !t.1.starts_with('#') && has_scheme(&t.1) != want_scheme)
             .map(|t| t.1)
             .collect()
     };
     for h in scheme_rows(doc(hid, "html.top")) {
-        v.finding_href_scheme.push(format!("top index: row link {:?} is an absolute URL", h));
+        v.scheme.push(format!("top index: the scheme of link {:?} is decided by a name", h));
     }
     let parents: BTreeSet<String> = c.files.iter().map(parent_of).collect();
     for (k, p) in parents.iter().enumerate() {
@@ -1488,32 +1491,15 @@ fn judge_case(c: &RepCase, hid: &str, bid: &str, wh: &Written, wb: &Written, dec
         );
         v.failures.extend(r.into_iter().map(|m| format!("html directory index {:?}: {}", p, m)));
         for h in scheme_rows(doc(hid, &format!("html.dir{}", k))) {
-            v.finding_href_scheme.push(format!("directory index {:?}: row link {:?} is an absolute URL", p, h));
+            v.scheme.push(format!("directory index {:?}: the scheme of link {:?} is decided by a name", p, h));
         }
     }
     for (k, f) in c.files.iter().enumerate() {
         let what = format!("html.file{}", k);
         let exp = expect_file_page(c, f);
         let r = judge_page(doc(hid, &what), doc(bid, &what), &exp);
-        if r.is_empty() {
-            continue;
-        }
-        // known finding: with --abs-link-prefix the parent link is written unescaped; it is that
-        // and nothing else iff the same page with that one link escaped passes
-        if c.prefix.is_some() {
-            let link = file_links(c, f).1;
-            if ref_html_escape(&link).replace("&#x2F;", "/") != link {
-                let rr = judge_page(doc(hid, &format!("{}.repaired", what)), doc(bid, &what), &exp);
-                if rr.is_empty() {
-                    v.finding_abs_prefix.push(format!(
-                        "file page of {:?}: breadcrumb href written raw ({}): {}",
-                        rel_of(f),
-                        link,
-                        r.join("; ")
-                    ));
-                    continue;
-                }
-            }
+        for h in scheme_rows(doc(hid, &what)) {
+            v.scheme.push(format!("file page {:?}: the scheme of link {:?} is decided by a name", rel_of(f), h));
         }
         v.failures.extend(r.into_iter().map(|m| format!("html file page {:?}: {}", rel_of(f), m)));
     }
@@ -1611,17 +1597,13 @@ fn evaluate_cases(rep: &mut Report, cases: &[RepCase], tag: &str) -> Vec<Verdict
 }
 
 /// drop files, functions, source lines, then characters, while the same kind of failure remains
-fn shrink_report(rep: &mut Report, c: &RepCase, want_finding: bool) -> RepCase {
+fn shrink_report(rep: &mut Report, c: &RepCase) -> RepCase {
     let still = |rep: &mut Report, cand: &RepCase| -> bool {
         if cand.files.is_empty() {
             return false;
         }
         let v = &evaluate_cases(rep, std::slice::from_ref(cand), "shrink")[0];
-        if want_finding {
-            !v.finding_abs_prefix.is_empty()
-        } else {
-            !v.failures.is_empty()
-        }
+        !v.failures.is_empty() || !v.scheme.is_empty()
     };
     let mut cur = c.clone();
     let mut budget = 40;
@@ -1663,11 +1645,47 @@ fn shrink_report(rep: &mut Report, c: &RepCase, want_finding: bool) -> RepCase {
     cur
 }
 
+/// The excluded point of `C18_prefixed_links_scheme_partial`, run on the real code as an
+/// observation: `--abs-link-prefix java` (neither a URL nor a path: outside the option's domain,
+/// and not a name) with a directory `script:alert(1)`. Not a verdict on the property, which
+/// quantifies over names for a given configuration; recorded so that the refutation in
+/// Props/C18.lean is known to transfer.
+fn observe_excluded_point(rep: &mut Report) {
+    let c = RepCase {
+        root: "r".into(),
+        files: vec![FileCase {
+            comps: vec!["script:alert(1)".into(), "x.c".into()],
+            lines: vec!["int x;".into()],
+            cov: parse_cov("L1:1;B;F"),
+        }],
+        demangle: false,
+        pretty: false,
+        branch: false,
+        prefix: Some("java".into()),
+        service: vec!["a".into(), "b".into(), "c".into(), "d".into()],
+    };
+    let v = &evaluate_cases(rep, std::slice::from_ref(&c), "excluded")[0];
+    if !v.failures.is_empty() {
+        rep.fail("oracle", None, v.failures.join(" | "), case_json(&c));
+    } else if v.scheme.iter().any(|m| m.contains("javascript:alert(1)/index.html")) {
+        rep.count("report.excluded_point.prefix_without_separator.reproduced");
+        rep.notes.push(format!(
+            "observation (configuration outside the option's domain, not a violation): --abs-link-prefix java + directory script:alert(1): {}",
+            v.scheme.join(" | ")
+        ));
+    } else {
+        rep.count("report.excluded_point.prefix_without_separator.not_reproduced");
+        rep.notes.push("the excluded point of C18_prefixed_links_scheme_partial no longer reproduces: index.html 23 may have gained a separator; the guard can go".into());
+    }
+}
+
 fn report_stream(rep: &mut Report, rng: &mut Rng) {
     let n = rep.budget(80, 6);
     let n_prefix = rep.budget(10, 6);
     let mut cases = vec![];
-    // fixed: the DESIGN §7 item 20 directory, without and with the prefix option
+    // corpus: the witnesses of the two defects fixed by /repo ffd66c7 and 8e4c27e (DESIGN §7 item 20:
+    // prefix http://h + directory x"><b id=pwn>; names javascript:alert(1)). They must pass: a
+    // recurrence is a plain violation.
     let witness = |prefix: Option<String>| RepCase {
         root: "src<&>".into(),
         files: vec![FileCase {
@@ -1688,7 +1706,7 @@ fn report_stream(rep: &mut Report, rng: &mut Rng) {
     };
     cases.push(witness(None));
     cases.push(witness(Some("http://h".into())));
-    // fixed: a directory and a file whose names start like a URL scheme
+    // corpus: a directory and a file whose names start like a URL scheme
     cases.push(RepCase {
         root: "r".into(),
         files: vec![
@@ -1713,9 +1731,10 @@ fn report_stream(rep: &mut Report, rng: &mut Rng) {
         cases.push(gen_report_case(rng, None));
     }
     for _ in 0..n_prefix {
-        let p = rng.pick(&["http://h", "https://example.org/cov/", "/srv/www"]).to_string();
+        let p = rng.pick(&["http://h", "https://example.org/cov/", "/srv/www", "../cov"]).to_string();
         cases.push(gen_report_case(rng, Some(p)));
     }
+    observe_excluded_point(rep);
     let verdicts = evaluate_cases(rep, &cases, "run");
     let mut shrunk = 0;
     for (i, (c, v)) in cases.iter().zip(verdicts.iter()).enumerate() {
@@ -1737,26 +1756,19 @@ fn report_stream(rep: &mut Report, rng: &mut Rng) {
             rep.count("report.cobertura_pretty");
         }
         if i == 0 {
-            rep.sample(json!({"case": cj, "verdict": if v.failures.is_empty() { "holds" } else { "fails" }}));
+            rep.sample(json!({"case": cj, "verdict": if v.failures.is_empty() && v.scheme.is_empty() { "holds" } else { "fails" }}));
         }
-        if !v.failures.is_empty() {
+        if !v.failures.is_empty() || !v.scheme.is_empty() {
             let (cs, what) = if shrunk < 2 {
                 shrunk += 1;
-                let s = shrink_report(rep, c, false);
-                let w = evaluate_cases(rep, std::slice::from_ref(&s), "shrunk")[0].failures.join(" | ");
+                let s = shrink_report(rep, c);
+                let sv = &evaluate_cases(rep, std::slice::from_ref(&s), "shrunk")[0];
+                let w = sv.failures.iter().chain(sv.scheme.iter()).cloned().collect::<Vec<_>>().join(" | ");
                 (s, w)
             } else {
-                (c.clone(), v.failures.join(" | "))
+                (c.clone(), v.failures.iter().chain(v.scheme.iter()).cloned().collect::<Vec<_>>().join(" | "))
             };
             rep.fail("oracle", None, what, case_json(&cs));
-        }
-        if !v.finding_abs_prefix.is_empty() {
-            rep.count("report.finding_abs_prefix_href");
-            rep.fail("oracle", Some(FINDING_ABS_PREFIX), v.finding_abs_prefix.join(" | "), cj.clone());
-        }
-        if !v.finding_href_scheme.is_empty() {
-            rep.count("report.finding_href_scheme");
-            rep.fail("oracle", Some(FINDING_HREF_SCHEME), v.finding_href_scheme.join(" | "), cj.clone());
         }
     }
 }
@@ -1796,7 +1808,7 @@ pub fn replay(rep: &mut Report, case: &Value) {
                 Ok(r) => r,
                 Err(p) => Err(format!("panic {}", p)),
             };
-            let req = format!("{} x{}", routine, hex(name.as_bytes()));
+            let req = esc_request(&routine, &name);
             let m = run_model_named("gm_c18", &[req.clone()], &rep.workdir, "replay");
             rep.case(&req, true);
             let orc = match &o {
@@ -1830,14 +1842,9 @@ pub fn replay(rep: &mut Report, case: &Value) {
             if let Some(c) = case_from_json(case) {
                 let v = &evaluate_cases(rep, std::slice::from_ref(&c), "replay")[0];
                 rep.case(&case.to_string(), true);
-                if !v.failures.is_empty() {
-                    rep.fail("oracle", None, v.failures.join(" | "), case.clone());
-                }
-                if !v.finding_abs_prefix.is_empty() {
-                    rep.fail("oracle", Some(FINDING_ABS_PREFIX), v.finding_abs_prefix.join(" | "), case.clone());
-                }
-                if !v.finding_href_scheme.is_empty() {
-                    rep.fail("oracle", Some(FINDING_HREF_SCHEME), v.finding_href_scheme.join(" | "), case.clone());
+                if !v.failures.is_empty() || !v.scheme.is_empty() {
+                    let w = v.failures.iter().chain(v.scheme.iter()).cloned().collect::<Vec<_>>().join(" | ");
+                    rep.fail("oracle", None, w, case.clone());
                 }
             } else {
                 rep.notes.push("malformed report case".into());
